@@ -29,8 +29,8 @@ What the misses say (each is also listed as "outside" in the property's MANIFEST
   C14-B's own conversion code makes the existing conversion harness exceed 14 GB (exit 2, not a detection).
 * C18-B: `PaletteMapper` iterates one hash map and fills another; not decided.
 * C11-C: the palette hash map is modelled by a side table that is emptied when a map is created, so a new palette that
-  is merged into the surviving legacy map looks like a replacement. A thorough-tier harness on the real maps
-  (`c11_t_legacy_then_new_palette_real_maps`) exists for this case; see its status in the thorough evidence.
+  is merged into the surviving legacy map looks like a replacement. The same case on the real hash maps did not
+  finish in 50 min (6.4 GB) and was dropped.
 """
 s = s[:i] + marker + "\n\nEach seed was produced by a fresh sub-agent that saw only the property text and its own worktree, was confirmed by me (existing 50 tests pass with the change, its demonstration fails with it and passes without), and was then run against the registered checks with the patch applied to a scratch clone of /repo (`vk/campaign.py`; `VERIF_REPO` points the driver at the clone). 'missed' rows say what the checks do not reach.\n\n" + table + "\n" + MISSES
 open(p, "w").write(s)
